@@ -37,9 +37,35 @@ type c12Case struct {
 var c12Ops = []string{"commit", "multiprove", "multiprove", "multiverify", "ipa_in_domain", "ipa_out_domain", "multiscalar", "multiexp",
 	"codec", "batch", "fr", "fr_canonical", "transcript", "mapfield"}
 
+func c12OpKinds() []string {
+	seen := map[string]bool{}
+	var out []string
+	for _, op := range c12Ops {
+		if !seen[op] {
+			seen[op] = true
+			out = append(out, op)
+		}
+	}
+	return out
+}
+
 func genC12(t *rapid.T) c12Case {
 	g := rapid.IntRange(2, 12).Draw(t, "goroutines")
 	var c c12Case
+	if rapid.Bool().Draw(t, "symmetric") {
+		// every goroutine runs the same kinds of call (own arguments): maximises simultaneous use of one code path
+		n := rapid.IntRange(1, 3).Draw(t, "ncalls")
+		ops := rapid.SliceOfN(rapid.SampledFrom(c12Ops), n, n).Draw(t, "ops")
+		for i := 0; i < g; i++ {
+			var seq []pcall
+			for _, op := range ops {
+				seq = append(seq, pcall{Op: op, Seed: rapid.Uint64().Draw(t, "seed"), N: rapid.IntRange(0, 40).Draw(t, "n"),
+					K: rapid.IntRange(0, 255).Draw(t, "k"), Flag: rapid.Bool().Draw(t, "flag")})
+			}
+			c.Plan = append(c.Plan, seq)
+		}
+		return c
+	}
 	for i := 0; i < g; i++ {
 		n := rapid.IntRange(1, 6).Draw(t, "ncalls")
 		var seq []pcall
@@ -337,5 +363,18 @@ func TestC12(t *testing.T) {
 			{Op: c12Ops[(i+3)%len(c12Ops)], Seed: uint64(i + 7), N: 9, K: 200 - i}})
 	}
 	c12Part.EvalCase(s, fixed)
-	c12Part.Run(s, hx.Pick(10, 40))
+	// one symmetric plan per kind of call (8 goroutines, the same call twice each, own arguments); the quick tier splits
+	// the kinds over the shards (one shard per GOMAXPROCS value), the thorough tier runs every kind in every shard
+	for i, op := range c12OpKinds() {
+		if !hx.Thorough() && !hx.Sharded(i) {
+			continue
+		}
+		var sym c12Case
+		for g := 0; g < 8; g++ {
+			sym.Plan = append(sym.Plan, []pcall{{Op: op, Seed: uint64(1000*hx.Seed() + 10*g), N: 3 + g, K: 10 + 7*g, Flag: g%2 == 0},
+				{Op: op, Seed: uint64(77 + g), N: 1 + g, K: 200 - g}})
+		}
+		c12Part.EvalCase(s, sym)
+	}
+	c12Part.Run(s, hx.Pick(8, 40))
 }
